@@ -750,6 +750,10 @@ class Interp:
 
     # ================================================================== attribute access
     def getattr(self, o, attr: str, node=None):
+        if isinstance(o, SOpt):
+            o = self.models.unopt(self, o)
+            if o is None:
+                self.raise_exc("AttributeError", f"'NoneType' object has no attribute {attr!r}")
         if isinstance(o, Obj):
             if attr in o.fields:
                 return o.fields[attr]
